@@ -197,6 +197,65 @@ def find_state(prog, m):
                 if isinstance(root, ast.Attribute) and isinstance(root.value, ast.Name) and (
                         root.value.id in classnames or (root.value.id == "cls" and fi.cls is not None and "cls" in fi.params[:1])):
                     out.append((fi, norm(root), x, "class-level container mutated from a method"))
+        # a container defined in the CLASS BODY, mutated through `self.<name>`: unless the method first rebinds the name on the
+        # instance to a fresh object (self._properties = copy.deepcopy(self._properties)), the mutation lands in the class --
+        # every later instance of the type sees it (v20 MarkingDefinition swaps the `created` validator for millisecond precision
+        # that way; on the shared dictionary every later marking definition would be truncated)
+        if fi.cls is not None:
+            out.extend(_class_container_through_self(prog, fi))
+    return out
+
+
+_FRESH_CALLS = ("deepcopy", "copy", "dict", "list", "set", "OrderedDict", "defaultdict", "ChainMap")
+
+
+def _class_level_containers(cls):
+    names = set()
+    for k_ in [cls] + [b for b in (cls.mro or []) if hasattr(b, "node")]:
+        for st in getattr(k_.node, "body", []):
+            if isinstance(st, ast.Assign) and len(st.targets) == 1 and isinstance(st.targets[0], ast.Name):
+                v = st.value
+                if isinstance(v, (ast.Dict, ast.List, ast.Set)) or (isinstance(v, ast.Call) and norm(v.func).split(".")[-1] in (
+                        "dict", "list", "set", "OrderedDict", "defaultdict")):
+                    names.add(st.targets[0].id)
+    return names
+
+
+def _class_container_through_self(prog, fi):
+    from ..cfg import cfg_of
+    out = []
+    names = _class_level_containers(fi.cls)
+    if not names:
+        return out
+    muts = []
+    for x in body_walk(fi.node):
+        root = None
+        if isinstance(x, ast.Call) and isinstance(x.func, ast.Attribute) and x.func.attr in MUTATORS:
+            root = x.func.value
+        elif isinstance(x, (ast.Assign, ast.AugAssign, ast.Delete)):
+            for t in (x.targets if not isinstance(x, ast.AugAssign) else [x.target]):
+                if isinstance(t, ast.Subscript):
+                    root = t.value
+        while isinstance(root, ast.Subscript):
+            root = root.value
+        if isinstance(root, ast.Attribute) and isinstance(root.value, ast.Name) and root.value.id == "self" and root.attr in names:
+            muts.append((x, root.attr))
+    if not muts:
+        return out
+    g = cfg_of(fi)
+    dom = g.dominators()
+    for x, attr in muts:
+        fresh = []
+        for a_ in body_walk(fi.node):
+            if isinstance(a_, ast.Assign) and any(isinstance(t, ast.Attribute) and isinstance(t.value, ast.Name) and t.value.id == "self"
+                                                  and t.attr == attr for t in a_.targets):
+                v = a_.value
+                if isinstance(v, (ast.Dict, ast.List, ast.Set, ast.DictComp, ast.ListComp, ast.SetComp)) or (
+                        isinstance(v, ast.Call) and norm(v.func).split(".")[-1] in _FRESH_CALLS):
+                    fresh.append(a_)
+        mn = g.stmt_node_containing(x)
+        if not any(g.node_of(a_) is not None and mn is not None and g.node_of(a_) in dom[mn] for a_ in fresh):
+            out.append((fi, "self.%s" % attr, x, "container of the CLASS mutated through self without a fresh instance copy"))
     return out
 
 
